@@ -7,6 +7,7 @@ import (
 	"fmt"
 	"io"
 	"math"
+	"net/http"
 	"os"
 	"strconv"
 	"strings"
@@ -22,6 +23,14 @@ type SrcSpec struct {
 	WithData bool   `json:"with_data"`
 	Boom     bool   `json:"boom"` // terminal is an error instead of EOF
 	Closable bool   `json:"closable"`
+	// BodyClosed: the terminal is http.ErrBodyReadAfterClose (takes precedence over Boom)
+	BodyClosed bool `json:"body_closed,omitempty"`
+	// WT: the source also implements io.WriterTo (Src.hasWriteTo)
+	WT bool `json:"wt,omitempty"`
+	// Std: use a real standard-library source instead of the scripted one: "strings" (strings.Reader),
+	// "bytesreader" (bytes.Reader), "bytesbuffer" (bytes.Buffer), "file" (*os.File). They all
+	// implement io.WriterTo; modelled as a scripted source with no script, EOF alone, hasWriteTo.
+	Std string `json:"std,omitempty"`
 }
 
 // Case is one concrete experiment on a reader of package streams.
@@ -39,6 +48,11 @@ type Case struct {
 	Buf    int      `json:"buf,omitempty"`
 	Ops    []string `json:"ops,omitempty"`
 	Closes int      `json:"closes"` // Close calls after consumption (modes other than ops)
+	// RF > 0: the scripted writer also implements io.ReaderFrom, reading with buffers of RF bytes
+	RF int `json:"rf,omitempty"`
+	// StdW: a real standard-library writer as WriteTo destination (multi, mode copy):
+	// "bytesbuffer" (bytes.Buffer: ReadFrom with >= 512-byte reads) or "file" (*os.File: ReadFrom)
+	StdW string `json:"stdw,omitempty"`
 }
 
 func (s SrcSpec) bytes() []byte {
@@ -58,7 +72,25 @@ func (s SrcSpec) encode() string {
 	if s.Boom {
 		t = "b"
 	}
-	return fmt.Sprintf("%s:%s:%s:%s:%s", s.Content, strings.Join(sc, "."), b01(s.WithData), t, b01(s.Closable))
+	if s.BodyClosed {
+		t = "h"
+	}
+	if s.Std != "" {
+		return fmt.Sprintf("%s::0:e:1:1", s.Content)
+	}
+	return fmt.Sprintf("%s:%s:%s:%s:%s:%s", s.Content, strings.Join(sc, "."), b01(s.WithData), t, b01(s.Closable), b01(s.WT))
+}
+
+func (s SrcSpec) termName() string {
+	switch {
+	case s.Std != "":
+		return "eof"
+	case s.BodyClosed:
+		return "bodyclosed"
+	case s.Boom:
+		return "boom"
+	}
+	return "eof"
 }
 
 func b01(b bool) string {
@@ -78,12 +110,28 @@ func (c *Case) modelLine(ops []string) string {
 	if c.WCap >= 0 {
 		wcap = strconv.Itoa(c.WCap)
 	}
-	return fmt.Sprintf("case kind=%s ver=%s n=%d wcap=%s wclos=%s srcs=%s ops=%s",
-		c.Kind, modelVer, c.N, wcap, b01(c.WClos), strings.Join(ss, "|"), strings.Join(ops, ","))
+	rf := c.RF
+	switch c.stdW() {
+	case "bytesbuffer":
+		rf = 512 // bytes.MinRead; the result does not depend on the size (copyBuffer_all_paths)
+	case "file":
+		rf = 32768 // os.File.ReadFrom falls back to io.Copy's generic loop for these sources
+	}
+	return fmt.Sprintf("case kind=%s ver=%s n=%d wcap=%s wclos=%s rf=%d srcs=%s ops=%s",
+		c.Kind, modelVer, c.N, wcap, b01(c.WClos), rf, strings.Join(ss, "|"), strings.Join(ops, ","))
+}
+
+func (c *Case) stdW() string {
+	if c.Mode == "copybuf" {
+		return "bytesbuffer"
+	}
+	return c.StdW
 }
 
 func errName(err error) string {
 	switch {
+	case err == http.ErrBodyReadAfterClose:
+		return "bodyclosed"
 	case err == nil:
 		return "nil"
 	case err == io.EOF:
@@ -212,46 +260,133 @@ func execute(c *Case) *Obs {
 }
 
 func executeInner(c *Case, o *Obs) {
-	srcs := make([]*src, len(c.Srcs))
+	type live struct {
+		reader io.Reader
+		closes func() int
+		rac    func() int
+	}
+	srcs := make([]live, len(c.Srcs))
 	total := 0
+	var cleanup []func()
+	defer func() {
+		for _, f := range cleanup {
+			f()
+		}
+	}()
+	tempFile := func(content []byte) *os.File {
+		f, err := os.CreateTemp(workDir, "c16-*")
+		if err != nil {
+			panic("harness: temp file: " + err.Error())
+		}
+		cleanup = append(cleanup, func() { f.Close(); os.Remove(f.Name()) })
+		if _, err := f.Write(content); err != nil {
+			panic("harness: temp file: " + err.Error())
+		}
+		if _, err := f.Seek(0, io.SeekStart); err != nil {
+			panic("harness: temp file: " + err.Error())
+		}
+		return f
+	}
 	for i, sp := range c.Srcs {
+		content := sp.bytes()
+		total += len(content) + len(sp.Script) + 2
+		if sp.Std != "" {
+			var ss *stdSrc
+			switch sp.Std {
+			case "strings":
+				ss = &stdSrc{r: strings.NewReader(string(content))}
+			case "bytesreader":
+				ss = &stdSrc{r: bytes.NewReader(content)}
+			case "bytesbuffer":
+				ss = &stdSrc{r: bytes.NewBuffer(append([]byte(nil), content...))}
+			case "file":
+				ss = &stdSrc{r: tempFile(content)}
+			default:
+				panic("harness: unknown std source " + sp.Std)
+			}
+			srcs[i] = live{ss, func() int { return ss.closes }, func() int { return 0 }}
+			continue
+		}
 		term := io.EOF
 		if sp.Boom {
 			term = errBoom
 		}
-		srcs[i] = &src{rest: sp.bytes(), script: append([]int(nil), sp.Script...), withData: sp.WithData, term: term}
-		total += len(srcs[i].rest) + len(sp.Script) + 2
-	}
-	w := &wr{cap: c.WCap}
-	var wIface io.Writer = writerOnly{w}
-	if c.WClos {
-		wIface = closableWr{w}
-	}
-	asReader := func(i int) io.Reader {
-		if c.Srcs[i].Closable {
-			return closableSrc{srcs[i]}
+		if sp.BodyClosed {
+			term = http.ErrBodyReadAfterClose
 		}
-		return readerOnly{srcs[i]}
+		s := &src{rest: content, script: append([]int(nil), sp.Script...), withData: sp.WithData, term: term}
+		var rd io.Reader
+		closable := sp.Closable || c.Kind == "limit"
+		switch {
+		case closable && sp.WT:
+			rd = closableSrcWT{s}
+		case closable:
+			rd = closableSrc{s}
+		case sp.WT:
+			rd = readerOnlyWT{s}
+		default:
+			rd = readerOnly{s}
+		}
+		srcs[i] = live{rd, func() int { return s.closes }, func() int { return s.readsAfterClose }}
+	}
+	w := &wr{cap: c.WCap, rf: c.RF}
+	var wIface io.Writer
+	switch {
+	case c.WClos && c.RF > 0:
+		wIface = closableWrRF{w}
+	case c.WClos:
+		wIface = closableWr{w}
+	case c.RF > 0:
+		wIface = writerOnlyRF{w}
+	default:
+		wIface = writerOnly{w}
+	}
+	// a real standard-library destination for WriteTo
+	var stdBuf *bytes.Buffer
+	var stdFile *os.File
+	switch c.stdW() {
+	case "bytesbuffer":
+		stdBuf = &bytes.Buffer{}
+		wIface = stdBuf
+	case "file":
+		stdFile = tempFile(nil)
+		wIface = stdFile
+	case "":
+	default:
+		panic("harness: unknown std writer " + c.StdW)
+	}
+	wGot := func() []byte {
+		switch {
+		case stdBuf != nil:
+			return append([]byte(nil), stdBuf.Bytes()...)
+		case stdFile != nil:
+			b, err := os.ReadFile(stdFile.Name())
+			if err != nil {
+				panic("harness: read back: " + err.Error())
+			}
+			return b
+		}
+		return append([]byte(nil), w.got...)
 	}
 	var r io.ReadCloser
 	switch c.Kind {
 	case "limit":
-		r = streams.LimitReadCloser(closableSrc{srcs[0]}, c.N)
+		r = streams.LimitReadCloser(srcs[0].reader.(io.ReadCloser), c.N)
 	case "multi":
 		rs := make([]io.Reader, len(srcs))
 		for i := range srcs {
-			rs[i] = asReader(i)
+			rs[i] = srcs[i].reader
 		}
 		r = streams.NewMultiReaderCloser(rs...)
 	case "tee":
-		r = streams.NewTeeReadCloser(asReader(0), wIface)
+		r = streams.NewTeeReadCloser(srcs[0].reader, wIface)
 	default:
 		panic("unknown kind " + c.Kind)
 	}
 	snapshot := func() []int {
 		cl := make([]int, len(srcs))
 		for i, s := range srcs {
-			cl[i] = s.closes
+			cl[i] = s.closes()
 		}
 		return cl
 	}
@@ -298,7 +433,7 @@ func executeInner(c *Case, o *Obs) {
 		}
 		addDrain(sizesOp(rec.sizes), rec.data, rec.last)
 		full(rec.data, rec.last)
-	case "copy": // io.Copy straight on the reader under test, so that io.Copy sees its real method set
+	case "copy", "copybuf": // io.Copy straight on the reader under test, so that io.Copy sees its real method set
 		if c.Kind != "multi" {
 			// limit / tee have no WriteTo today: io.Copy then is a Read loop with 32 KiB buffers
 			// (model op d32768:).  If a WriteTo/ReadFrom fast path ever appears, io.Copy takes it
@@ -338,22 +473,7 @@ func executeInner(c *Case, o *Obs) {
 		if err == nil {
 			err = io.EOF
 		}
-		full(append([]byte(nil), w.got...), err)
-	case "copybuf": // multi: WriteTo into a bytes.Buffer (ReaderFrom path inside io.CopyBuffer); monitors only
-		var buf bytes.Buffer
-		var err error
-		func() {
-			defer func() {
-				if x := recover(); x != nil {
-					err = fmt.Errorf("%w: %v", errPanic, x)
-				}
-			}()
-			_, err = io.Copy(&buf, r)
-		}()
-		if err == nil {
-			err = io.EOF
-		}
-		full(buf.Bytes(), err)
+		full(wGot(), err)
 	case "ops":
 		for _, op := range c.Ops {
 			o.Ops = append(o.Ops, op)
@@ -410,10 +530,10 @@ func executeInner(c *Case, o *Obs) {
 		}
 	}
 	o.Closes = snapshot()
-	o.WGot = w.got
+	o.WGot = wGot()
 	o.WCl = w.closes
 	for _, s := range srcs {
-		o.ReadsAfterClose += s.readsAfterClose
+		o.ReadsAfterClose += s.rac()
 	}
 }
 
@@ -422,12 +542,16 @@ func executeInner(c *Case, o *Obs) {
 type verdict struct{ id, what string }
 
 // expectedMulti: concatenation of the sources up to and including the first failing one.
+// On the Read path a source ending in http.ErrBodyReadAfterClose counts as ended (the documented
+// behaviour of Read); on the WriteTo path io.CopyBuffer reports it like any other error.
 func expectedMulti(c *Case) ([]byte, string) {
+	writeTo := c.Mode == "copy" || c.Mode == "copybuf"
 	var out []byte
 	for _, s := range c.Srcs {
 		out = append(out, s.bytes()...)
-		if s.Boom {
-			return out, "boom"
+		switch t := s.termName(); {
+		case t == "boom", t == "bodyclosed" && writeTo:
+			return out, t
 		}
 	}
 	return out, "eof"
@@ -477,7 +601,15 @@ func monitor(c *Case, o *Obs) []verdict {
 		}
 		if closed && c.Closes == 1 {
 			for i, s := range c.Srcs {
-				if !s.Closable {
+				if !s.Closable && s.Std == "" {
+					continue
+				}
+				if s.BodyClosed {
+					// a body that answers ErrBodyReadAfterClose is somebody else's to close; the
+					// reader may leave it alone (Read does) but must never close it twice
+					if o.Closes[i] > 1 {
+						add("multi-body-closed-source-closed-twice", "source %d closed %d times", i, o.Closes[i])
+					}
 					continue
 				}
 				path := "read"
@@ -493,10 +625,7 @@ func monitor(c *Case, o *Obs) []verdict {
 		}
 	case "tee":
 		content := c.Srcs[0].bytes()
-		term := "eof"
-		if c.Srcs[0].Boom {
-			term = "boom"
-		}
+		term := c.Srcs[0].termName()
 		if !bytes.Equal(o.Bytes, o.WGot) {
 			add("tee-writer-differs", "consumer got %x, writer got %x", o.Bytes, o.WGot)
 		}
@@ -512,15 +641,12 @@ func monitor(c *Case, o *Obs) []verdict {
 				add("tee-silent-writer-failure", "writer failed after %d bytes but the stream ended with %s", c.WCap, o.Term)
 			}
 		}
-		if c.Closes == 1 && c.Srcs[0].Closable && o.Closes[0] != 1 {
+		if c.Closes == 1 && (c.Srcs[0].Closable || c.Srcs[0].Std != "") && o.Closes[0] != 1 {
 			add("tee-source-close-count", "source closed %d times after Close", o.Closes[0])
 		}
 	case "limit":
 		content := c.Srcs[0].bytes()
-		term := "eof"
-		if c.Srcs[0].Boom {
-			term = "boom"
-		}
+		term := c.Srcs[0].termName()
 		if int64(len(content)) <= c.N {
 			if !bytes.Equal(o.Bytes, content) || o.Term != term {
 				add("limit-not-identity", "N=%d: consumer got %x/%s, source is %x/%s", c.N, o.Bytes, o.Term, content, term)
@@ -528,7 +654,7 @@ func monitor(c *Case, o *Obs) []verdict {
 		} else if c.N >= 0 {
 			if o.Term == "eof" {
 				add("limit-silent-truncation", "N=%d, source has %d bytes: consumer got %d bytes and a clean EOF", c.N, len(content), len(o.Bytes))
-			} else if o.Term != "toolarge" && !(o.Term == "boom" && term == "boom") {
+			} else if o.Term != "toolarge" && !(o.Term == term && term != "eof") {
 				add("limit-wrong-error", "N=%d, source has %d bytes: stream ended with %s", c.N, len(content), o.Term)
 			}
 			if int64(len(o.Bytes)) > c.N {
